@@ -63,11 +63,24 @@ static cstl_map_t M;
 /* client callbacks see only what the client handed in: its own keys, its own priv pointers */
 static int mprobe;      /* erase looks a key up through a copy: what comes back must be the stored key, not the probe */
 static int map_own_key(const void *k) { return k == (const void *)&mprobe || ((const int *)k >= mkeys && (const int *)k < mkeys + MK); }
+/* what a failed call must not remember: the comparator only ever sees the key argument of the call in progress and keys of
+ * entries the map holds; the key of an insert that failed (or of an entry erased earlier) must never come back */
+static const void *m_arg;       /* key argument of the library call in progress */
+static int m_failed_ins;        /* inserts that failed so far in this case */
+static int map_cmp_ok(const void *k)
+{
+    const int *ik = k;
+    if (k == m_arg) return 1;
+    return ik >= mkeys && ik < mkeys + MK && mheld[ik - mkeys];
+}
 static int map_cmp(const void *a, const void *b, void *p)
 {
     VRT_CHECK(p == (void *)mheld, "faults.map.cmp.wrong-priv", "comparator called with a priv pointer the client never supplied");
     VRT_CHECK(map_own_key(a) && map_own_key(b),
               "faults.map.cmp.foreign-key", "comparator called with a key pointer the client never supplied");
+    VRT_CHECK(map_cmp_ok(a) && map_cmp_ok(b), "faults.map.cmp.key-not-held",
+              "comparator called with a key that is neither the argument of this call nor the key of an entry the map holds (%d inserts failed before)", m_failed_ins);
+    if (m_failed_ins) COUNT("map.cmp.checked-after-failed-insert");
     return *(const int *)a - *(const int *)b;
 }
 static int map_clear_n;
@@ -85,7 +98,9 @@ static void map_audit(void)
     int k, n = 0;
     for (k = 0; k < MK; k++) {
         cstl_map_iterator_t it;
+        m_arg = &mkeys[k];
         cstl_map_find(&M, &mkeys[k], &it);
+        m_arg = NULL;
         if (mheld[k]) {
             n++;
             VRT_CHECK(it.key == &mkeys[k] && it.val == &mvals[k], "faults.map.lost-entry", "key %d no longer found after an allocation failure", k);
@@ -101,7 +116,9 @@ static void map_ins(int k)
     cstl_map_iterator_t it;
     int r;
     CALL_BEGIN("map.insert", "key %ld (held %ld)", k, mheld[k]);
+    m_arg = &mkeys[k];
     r = cstl_map_insert(&M, &mkeys[k], &mvals[k], &it);
+    m_arg = NULL;
     if (mheld[k]) {
         VRT_CHECK(r == 1 && it.key == &mkeys[k], "faults.map.insert.existing", "insert of an existing key returned %d", r);
     } else if (r == 0) {
@@ -113,6 +130,7 @@ static void map_ins(int k)
         require_fired("map.insert", "-1");
         VRT_CHECK(cstl_map_iterator_eq(&it, cstl_map_iterator_end(&M)), "faults.map.insert.failure-iterator", "failed insert did not yield the end iterator");
         count_fail("map.insert");
+        m_failed_ins++;
     }
     map_audit();
 }
@@ -125,14 +143,18 @@ static void map_erase(int k)
         cstl_map_iterator_t it;
         memset(&it, 0x5a, sizeof(it));
         mprobe = mkeys[k];
+        m_arg = &mprobe;
         r = cstl_map_erase(&M, &mprobe, &it);
+        m_arg = NULL;
         if (r == 0) {
             VRT_CHECK(it.key == &mkeys[k] && it.val == &mvals[k], "faults.map.erase.iterator", "erase handed back a key/value the client did not store under this key");
             COUNT("map.erase.handed-back");
         }
         VRT_CHECK(cstl_map_iterator_eq(&it, cstl_map_iterator_end(&M)), "faults.map.erase.iterator-not-end", "iterator of an erase does not compare equal to end");
     } else {
+        m_arg = &mkeys[k];
         r = cstl_map_erase(&M, &mkeys[k], NULL);
+        m_arg = NULL;
     }
     VRT_CHECK(r == (mheld[k] ? 0 : -1), "faults.map.erase.code", "erase returned %d for a %s key", r, mheld[k] ? "held" : "missing");
     mheld[k] = 0;
@@ -142,6 +164,7 @@ static void script_map(void)
 {
     int k;
     memset(mheld, 0, sizeof(mheld));
+    m_arg = NULL; m_failed_ins = 0;
     for (k = 0; k < MK; k++) { mkeys[k] = (k * 7) % 29; mvals[k] = k; }
     cstl_map_init(&M, map_cmp, mheld);
     for (k = 0; k < 6; k++) map_ins(k);
@@ -176,6 +199,7 @@ static cstl_vector_t V;
 static int v_live[256];
 static uint64_t v_img[256];
 static int v_ctor, v_dtor;
+static int v_failed;        /* reserve/shrink/resize calls that failed the documented way so far in this case */
 /* the slots the call in progress may construct (they enter [0,size)) / destroy (they leave it); empty outside resize/clear */
 static size_t v_c_lo, v_c_hi, v_d_lo, v_d_hi;
 static void v_cons(void *e, void *p)
@@ -184,6 +208,7 @@ static void v_cons(void *e, void *p)
     VRT_CHECK(p == &V && i < 256 && !v_live[i], "faults.vector.ctor.slot", "constructor for a wrong or already live slot");
     VRT_CHECK(i >= v_c_lo && i < v_c_hi, "faults.vector.ctor.slot-not-entering-size", "constructor for slot %zu, which this call does not bring into [0,size)", i);
     COUNT("vector.ctor.slot-checked");
+    if (v_failed) COUNT("vector.ctor.checked-after-failed-call");
     v_live[i] = 1; v_img[i] = 0xc0de0000u + i * 3 + ++v_ctor * 1000003ull;
     memcpy(e, &v_img[i], 8);
 }
@@ -206,6 +231,7 @@ static void vec_audit(const char *after)
     VRT_CHECK(cstl_vector_capacity(&V) >= v_size, "faults.vector.cap-below-size", "capacity below size");
     for (i = 0; i < v_size; i++) {
         uint64_t x;
+        VRT_CHECK((char *)cstl_vector_at(&V, i) == (char *)cstl_vector_data(&V) + i * 8, "faults.vector.stride", "element %zu is not %zu * (element size given to init) behind the data pointer", i, i);
         memcpy(&x, cstl_vector_at(&V, i), 8);
         if (x != v_img[i] || !v_live[i]) vrt_fail(key, "element %zu changed", i);
     }
@@ -222,7 +248,7 @@ static void vec_reserve(size_t n)
     CALL_BEGIN("vector.reserve", "%ld (cap %ld)", n, before);
     cstl_vector_reserve(&V, n);
     if (cstl_vector_capacity(&V) != before) { require_not_fired("vector.reserve", "grew"); VRT_CHECK(cstl_vector_capacity(&V) >= n, "faults.vector.reserve.cap", "capacity below the request"); }
-    else if (n > before) { require_fired("vector.reserve", "no growth"); count_fail("vector.reserve"); }
+    else if (n > before) { require_fired("vector.reserve", "no growth"); count_fail("vector.reserve"); v_failed++; }
     vec_audit("reserve");
 }
 static void vec_shrink(void)
@@ -231,7 +257,7 @@ static void vec_shrink(void)
     CALL_BEGIN("vector.shrink_to_fit", "(size %ld cap %ld)", v_size, before);
     cstl_vector_shrink_to_fit(&V);
     if (cstl_vector_capacity(&V) != before) { require_not_fired("vector.shrink_to_fit", "shrank"); VRT_CHECK(cstl_vector_capacity(&V) == v_size, "faults.vector.shrink.cap", "capacity != size after shrink"); }
-    else if (before > v_size) { require_fired("vector.shrink_to_fit", "no change"); count_fail("vector.shrink_to_fit"); }
+    else if (before > v_size) { require_fired("vector.shrink_to_fit", "no change"); count_fail("vector.shrink_to_fit"); v_failed++; }
     vec_audit("shrink_to_fit");
 }
 static void vec_resize(size_t n)
@@ -244,7 +270,7 @@ static void vec_resize(size_t n)
         VRT_CHECK(n > cap, "faults.vector.resize.abort-within-capacity", "resize within capacity aborted");
         require_fired("vector.resize", "abort");
         VRT_CHECK(v_ctor == c0 && v_dtor == d0, "faults.vector.resize.xtor-before-abort", "constructor/destructor ran in a resize that aborted");
-        count_fail("vector.resize.abort");
+        count_fail("vector.resize.abort"); v_failed++;
     } else {
         require_not_fired("vector.resize", "succeeded");
         VRT_CHECK(v_ctor - c0 == (int)(n > v_size ? n - v_size : 0) && v_dtor - d0 == (int)(v_size > n ? v_size - n : 0),
@@ -256,7 +282,7 @@ static void vec_resize(size_t n)
 }
 static void script_vector(void)
 {
-    memset(v_live, 0, sizeof(v_live)); v_ctor = v_dtor = 0; v_size = 0;
+    memset(v_live, 0, sizeof(v_live)); v_ctor = v_dtor = 0; v_size = 0; v_failed = 0;
     v_c_lo = v_c_hi = v_d_lo = v_d_hi = 0;
     cstl_vector_init_complex(&V, 8, v_cons, v_dest, &V);
     vec_reserve(4); vec_resize(3); vec_resize(10); vec_reserve(100); vec_shrink(); vec_resize(2);
@@ -279,6 +305,298 @@ static void epilogue_vector(void)
     cstl_vector_clear(&V); v_size = 0;
     v_d_hi = 0;
     vec_audit("clear");
+}
+
+/* ======================= big elements: scratch space of sort/reverse, no memory for calls that cannot fail ======================= */
+/*
+ * The scripts' failpoint mask is armed through fp_arm_script() so that single calls can run with an allocator that refuses
+ * EVERYTHING (nomem_begin/nomem_end) and the script's own mask continues afterwards at the ordinal where it stopped
+ * (requests made inside such a window are not part of the script's numbering).
+ */
+static const uint8_t *g_mask; static size_t g_nbits; static int g_tail, g_armed; static uint64_t g_ordbase;
+static uint8_t g_shift[64];
+static uint64_t nomem_requests;
+static void fp_arm_script(const uint8_t *mask, size_t nbits, int tail)
+{
+    g_mask = mask; g_nbits = nbits; g_tail = tail; g_ordbase = 0; g_armed = 1;
+    vrt_fp_arm(mask, nbits, tail);
+}
+static void fp_disarm_script(void) { g_armed = 0; vrt_fp_disarm(); }
+static uint64_t fp_total(void) { return g_ordbase + vrt_fp_ordinal(); }
+static void nomem_begin(void)
+{
+    if (g_armed) g_ordbase += vrt_fp_ordinal();
+    vrt_fp_arm(NULL, 0, 1);
+}
+static void nomem_end(void)
+{
+    size_t k, n;
+    nomem_requests = vrt_fp_ordinal();
+    if (!g_armed) { vrt_fp_disarm(); return; }
+    n = g_nbits > g_ordbase ? g_nbits - (size_t)g_ordbase : 0;
+    memset(g_shift, 0, sizeof(g_shift));
+    for (k = 0; k < n; k++) if ((g_mask[(k + g_ordbase) >> 3] >> ((k + g_ordbase) & 7)) & 1) g_shift[k >> 3] |= (uint8_t)(1u << (k & 7));
+    vrt_fp_arm(g_shift, n, g_tail);
+}
+
+#define EVMAX 16
+static cstl_vector_t EV;
+static size_t ev_es;                    /* element size of this script: 300, 4097, 6000 */
+static size_t ev_size;
+static int ev_key[EVMAX]; static unsigned ev_id[EVMAX];     /* model: what position i holds */
+static int ev_idkey[32];                /* key the owner gave the element with this id */
+static unsigned ev_next_id;
+static int ev_ctor, ev_dtor, ev_failed;
+static size_t ev_c_lo, ev_c_hi, ev_d_lo, ev_d_hi;
+static int ev_probe_key;
+static unsigned char ev_probe[8];
+/* element = key, id, then a payload that depends on the id and the byte position (images built once per process) */
+#define EVIDS 32
+#define EVESMAX 6000
+static unsigned char (*ev_img)[EVESMAX];
+static void ev_images(void)
+{
+    unsigned id; size_t j;
+    if (ev_img != NULL) return;
+    ev_img = vrt_alloc(EVIDS * sizeof(*ev_img));
+    for (id = 0; id < EVIDS; id++) for (j = 0; j < EVESMAX; j++) ev_img[id][j] = (unsigned char)(id * 31u + j * 7u + (j >> 8) + 1u);
+}
+static void ev_write(void *e, int key, unsigned id)
+{
+    unsigned char *b = e;
+    memcpy(b, &key, 4); memcpy(b + 4, &id, 4);
+    memcpy(b + 8, ev_img[id] + 8, ev_es - 8);
+}
+static int ev_intact(const void *e, int *key, unsigned *id)
+{
+    const unsigned char *b = e;
+    memcpy(key, b, 4); memcpy(id, b + 4, 4);
+    return *id < EVIDS && memcmp(b + 8, ev_img[*id] + 8, ev_es - 8) == 0;
+}
+static int ev_key_of(unsigned id, unsigned salt) { return (int)((id * 5u + salt) % 7u) - 3; }
+static void ev_cons(void *e, void *p)
+{
+    const size_t off = (size_t)((char *)e - (char *)cstl_vector_data(&EV));
+    const size_t i = off / ev_es;
+    VRT_CHECK(p == (void *)&ev_es, "faults.bigelem.ctor.priv", "constructor called with a priv pointer the client never supplied");
+    VRT_CHECK(off % ev_es == 0 && i >= ev_c_lo && i < ev_c_hi, "faults.bigelem.ctor.slot",
+              "constructor for an address that is not one of the slots this call brings into [0,size) with the element size given to init");
+    if (ev_failed) COUNT("bigelem.ctor.checked-after-failed-call");
+    VRT_CHECK(ev_next_id < 32, "harness.faults.bigelem-ids", "more than 32 elements constructed in one script");
+    ev_id[i] = ev_next_id++; ev_key[i] = ev_idkey[ev_id[i]] = ev_key_of(ev_id[i], 0);
+    ev_write(e, ev_key[i], ev_id[i]);
+    ev_ctor++;
+}
+static void ev_dest(void *e, void *p)
+{
+    const size_t off = (size_t)((char *)e - (char *)cstl_vector_data(&EV));
+    const size_t i = off / ev_es;
+    int k; unsigned id;
+    VRT_CHECK(p == (void *)&ev_es, "faults.bigelem.dtor.priv", "destructor called with a priv pointer the client never supplied");
+    VRT_CHECK(off % ev_es == 0 && i >= ev_d_lo && i < ev_d_hi, "faults.bigelem.dtor.slot",
+              "destructor for an address that is not one of the slots this call removes from [0,size) with the element size given to init");
+    VRT_CHECK(ev_intact(e, &k, &id) && k == ev_key[i] && id == ev_id[i], "faults.bigelem.dtor.content", "destructor sees an element that is not what the vector held there");
+    if (ev_failed) COUNT("bigelem.dtor.checked-after-failed-call");
+    memset(e, 0xa5, ev_es);
+    ev_dtor++;
+}
+static int ev_cmp(const void *a, const void *b, void *p)
+{
+    int ka, kb;
+    VRT_CHECK(p == (void *)&ev_probe_key, "faults.bigelem.cmp.priv", "comparator called with a priv pointer the client never supplied");
+    memcpy(&ka, a, 4); memcpy(&kb, b, 4);
+    return ka < kb ? -(int)(1 + (vrt_case_tick() & 3) * 1000) : ka > kb ? (int)(1 + (vrt_case_tick() & 3) * 70000) : 0;
+}
+/* own swap function: the scratch space handed to it must be writable for a whole element and must not be a live element */
+static int ev_swaps;
+static void ev_swap(void *a, void *b, void *t, size_t len)
+{
+    const char *d = cstl_vector_data(&EV);
+    size_t bs = 0;
+    char *blk;
+    VRT_CHECK(len == ev_es, "faults.bigelem.swap.len", "swap called with length %zu for elements of %zu bytes", len, ev_es);
+    VRT_CHECK((const char *)a >= d && (const char *)a + len <= d + ev_size * ev_es && (const char *)b >= d && (const char *)b + len <= d + ev_size * ev_es,
+              "faults.bigelem.swap.operand-outside-size", "swap called for memory that is not an element in [0,size)");
+    blk = vrt_lib_block(t, &bs);
+    if (blk != NULL) {
+        VRT_CHECK((char *)t + len <= blk + bs, "faults.bigelem.swap.scratch-outside-storage",
+                  "the scratch space handed to swap has %zu bytes left in its block, the element needs %zu", (size_t)(blk + bs - (char *)t), len);
+        VRT_CHECK(blk != d || (char *)t >= d + ev_size * ev_es, "faults.bigelem.swap.scratch-is-an-element", "the scratch space handed to swap overlaps a live element");
+        COUNT("bigelem.swap.scratch-checked");
+    } else {
+        /* not inside any library block: it must not be the address directly behind the vector's storage either */
+        blk = vrt_lib_block(d, &bs);
+        VRT_CHECK(blk == NULL || (char *)t < blk + bs || (char *)t >= blk + bs + len, "faults.bigelem.swap.scratch-outside-storage",
+                  "the scratch space handed to swap starts %zu bytes behind the end of the vector's storage", (size_t)((char *)t - (blk + bs)));
+    }
+    memcpy(t, a, len); memcpy(a, b, len); memcpy(b, t, len);
+    ev_swaps++;
+}
+static void ev_audit(const char *after)
+{
+    size_t i, bs = 0;
+    char key[96];
+    const char *d = cstl_vector_data(&EV);
+    snprintf(key, sizeof(key), "faults.bigelem.state-changed.%s", after);
+    if (cstl_vector_size(&EV) != ev_size) vrt_fail(key, "size %zu, model %zu", cstl_vector_size(&EV), ev_size);
+    VRT_CHECK(cstl_vector_capacity(&EV) >= ev_size, "faults.bigelem.cap-below-size", "capacity below size");
+    for (i = 0; i < ev_size; i++) {
+        int k; unsigned id;
+        const char *e = cstl_vector_at(&EV, i);
+        VRT_CHECK(e == d + i * ev_es, "faults.bigelem.stride", "element %zu is not %zu * (element size given to init) behind the data pointer", i, i);
+        if (!ev_intact(e, &k, &id) || k != ev_key[i] || id != ev_id[i]) vrt_fail(key, "element %zu changed", i);
+    }
+    if (cstl_vector_capacity(&EV) > 0)
+        VRT_CHECK(vrt_lib_block(d, &bs) == (void *)d && bs >= cstl_vector_capacity(&EV) * ev_es, "faults.bigelem.storage",
+                  "capacity %zu has no storage of that size behind it (block of %zu bytes)", cstl_vector_capacity(&EV), bs);
+    if (ev_failed) COUNT("bigelem.audit.after-failed-call");
+}
+static void ev_reserve(size_t n)
+{
+    const size_t before = cstl_vector_capacity(&EV);
+    CALL_BEGIN("vector.reserve", "%ld (cap %ld, big elements)", n, before);
+    cstl_vector_reserve(&EV, n);
+    if (cstl_vector_capacity(&EV) != before) { require_not_fired("vector.reserve", "grew"); VRT_CHECK(cstl_vector_capacity(&EV) >= n, "faults.bigelem.reserve.cap", "capacity below the request"); }
+    else if (n > before) { require_fired("vector.reserve", "no growth"); count_fail("vector.reserve"); ev_failed++; }
+    ev_audit("reserve");
+}
+static void ev_shrink(void)
+{
+    const size_t before = cstl_vector_capacity(&EV);
+    CALL_BEGIN("vector.shrink_to_fit", "(size %ld cap %ld, big elements)", ev_size, before);
+    cstl_vector_shrink_to_fit(&EV);
+    if (cstl_vector_capacity(&EV) != before) { require_not_fired("vector.shrink_to_fit", "shrank"); VRT_CHECK(cstl_vector_capacity(&EV) == ev_size, "faults.bigelem.shrink.cap", "capacity != size after shrink"); }
+    else if (before > ev_size) { require_fired("vector.shrink_to_fit", "no change"); count_fail("vector.shrink_to_fit"); ev_failed++; }
+    ev_audit("shrink_to_fit");
+}
+static void ev_resize(size_t n)
+{
+    const int c0 = ev_ctor, d0 = ev_dtor;
+    const unsigned id0 = ev_next_id;
+    const size_t cap = cstl_vector_capacity(&EV);
+    CALL_BEGIN("vector.resize", "%ld (size %ld, big elements)", n, ev_size);
+    if (n > ev_size) { ev_c_lo = ev_size; ev_c_hi = n; } else { ev_d_lo = n; ev_d_hi = ev_size; }
+    if (VRT_ABORTS(cstl_vector_resize(&EV, n))) {
+        VRT_CHECK(n > cap, "faults.bigelem.resize.abort-within-capacity", "resize within capacity aborted");
+        require_fired("vector.resize", "abort");
+        VRT_CHECK(ev_ctor == c0 && ev_dtor == d0, "faults.bigelem.resize.xtor-before-abort", "constructor/destructor ran in a resize that aborted");
+        count_fail("vector.resize.abort"); ev_failed++;
+        ev_next_id = id0;
+    } else {
+        require_not_fired("vector.resize", "succeeded");
+        VRT_CHECK(ev_ctor - c0 == (int)(n > ev_size ? n - ev_size : 0) && ev_dtor - d0 == (int)(ev_size > n ? ev_size - n : 0),
+                  "faults.bigelem.resize.xtor-count", "constructor/destructor counts wrong");
+        ev_size = n;
+    }
+    ev_c_lo = ev_c_hi = ev_d_lo = ev_d_hi = 0;
+    ev_audit("resize");
+}
+/* the owner changes its data between calls, through the data pointer */
+static void ev_rekey(unsigned salt)
+{
+    size_t i;
+    for (i = 0; i < ev_size; i++) { ev_key[i] = ev_idkey[ev_id[i]] = ev_key_of(ev_id[i], salt); ev_write((char *)cstl_vector_data(&EV) + i * ev_es, ev_key[i], ev_id[i]); }
+}
+/* calls without a documented failure mode: whole job, same capacity, with the script's mask or with no memory at all */
+static size_t ev_cap0;
+static void ev_nofail_begin(int nomem) { ev_cap0 = cstl_vector_capacity(&EV); if (nomem) nomem_begin(); }
+static void ev_nofail_end(int nomem, const char *entry)
+{
+    char key[96];
+    if (nomem) {
+        nomem_end();
+        COUNT("bigelem.nomem.calls");
+        if (nomem_requests > 0) COUNT("bigelem.nomem.requests-refused");
+    }
+    if (cstl_vector_capacity(&EV) != ev_cap0) {
+        snprintf(key, sizeof(key), "faults.bigelem.capacity-changed.%s", entry);
+        vrt_fail(key, "%s changed the capacity from %zu to %zu", entry, ev_cap0, cstl_vector_capacity(&EV));
+    }
+    if (ev_cap0 == ev_size) COUNT("bigelem.nofail-call.capacity-equals-size");
+}
+static void ev_sort(int how, int nomem)
+{
+    static const cstl_sort_algorithm_t algo[3] = { CSTL_SORT_ALGORITHM_QUICK, CSTL_SORT_ALGORITHM_HEAP, CSTL_SORT_ALGORITHM_QUICK_M };
+    unsigned before = 0, seen = 0;
+    size_t i;
+    for (i = 0; i < ev_size; i++) before |= 1u << (ev_id[i] & 31);
+    CALL_BEGIN("vector.sort", "how %ld nomem %ld (big elements)", how, nomem);
+    ev_nofail_begin(nomem);
+    ev_swaps = 0;
+    if (how == 0) cstl_vector_sort(&EV, ev_cmp, &ev_probe_key);
+    else __cstl_vector_sort(&EV, ev_cmp, &ev_probe_key, how & 1 ? ev_swap : cstl_swap, algo[how % 3]);
+    ev_nofail_end(nomem, "sort");
+    VRT_CHECK(cstl_vector_size(&EV) == ev_size, "faults.bigelem.sort.size", "sort changed the size");
+    for (i = 0; i < ev_size; i++) {
+        int k; unsigned id;
+        VRT_CHECK(ev_intact(cstl_vector_at(&EV, i), &k, &id) && id < ev_next_id && k == ev_idkey[id],
+                  "faults.bigelem.sort.element-torn", "element %zu is not one of the elements the vector held (mixed bytes)", i);
+        VRT_CHECK(!(seen & (1u << (id & 31))) && (before & (1u << (id & 31))), "faults.bigelem.sort.not-a-permutation", "element %zu appears twice or was not in the vector", i);
+        seen |= 1u << (id & 31);
+        VRT_CHECK(i == 0 || ev_key[i - 1] <= k, "faults.bigelem.sort.order", "element %zu is smaller than its predecessor", i);
+        ev_key[i] = k; ev_id[i] = id;
+    }
+    if (ev_size > 1) { COUNT("bigelem.sort.checked"); if (ev_swaps) COUNT("bigelem.sort.own-swap-used"); }
+    ev_audit("sort");
+}
+static void ev_reverse(int own, int nomem)
+{
+    size_t i;
+    CALL_BEGIN("vector.reverse", "own swap %ld nomem %ld (big elements)", own, nomem);
+    ev_nofail_begin(nomem);
+    if (own) __cstl_vector_reverse(&EV, ev_swap); else cstl_vector_reverse(&EV);
+    ev_nofail_end(nomem, "reverse");
+    for (i = 0; i < ev_size / 2; i++) {
+        const int k = ev_key[i]; const unsigned id = ev_id[i];
+        ev_key[i] = ev_key[ev_size - 1 - i]; ev_id[i] = ev_id[ev_size - 1 - i];
+        ev_key[ev_size - 1 - i] = k; ev_id[ev_size - 1 - i] = id;
+    }
+    if (ev_size > 1) COUNT("bigelem.reverse.checked");
+    ev_audit("reverse");        /* exact: position i holds what size-1-i held */
+}
+/* search needs a sorted vector: only called directly after a sort */
+static void ev_search(int key, int linear, int nomem)
+{
+    ssize_t r;
+    size_t i;
+    int present = 0;
+    for (i = 0; i < ev_size; i++) present |= ev_key[i] == key;
+    ev_probe_key = key; memcpy(ev_probe, &key, 4);
+    CALL_BEGIN("vector.search", "key %ld linear %ld (big elements)", key, linear);
+    ev_nofail_begin(nomem);
+    r = linear ? cstl_vector_find(&EV, ev_probe, ev_cmp, &ev_probe_key) : cstl_vector_search(&EV, ev_probe, ev_cmp, &ev_probe_key);
+    ev_nofail_end(nomem, linear ? "find" : "search");
+    if (present) VRT_CHECK(r >= 0 && (size_t)r < ev_size && ev_key[r] == key, "faults.bigelem.search.result", "search for a key the vector holds returned %zd", r);
+    else VRT_CHECK(r == -1, "faults.bigelem.search.phantom", "search for a key the vector does not hold returned %zd", r);
+    COUNT("bigelem.search.checked");
+    ev_audit("search");
+}
+static void script_bigelem(size_t es)
+{
+    ev_images();
+    ev_es = es; ev_size = 0; ev_next_id = 0; ev_ctor = ev_dtor = ev_failed = 0;
+    ev_c_lo = ev_c_hi = ev_d_lo = ev_d_hi = 0;
+    memset(&EV, 0x5a, sizeof(EV));
+    cstl_vector_init_complex(&EV, es, ev_cons, ev_dest, &ev_es);
+    ev_reserve(2); ev_resize(2); ev_sort(0, 1); ev_reverse(0, 1);
+    ev_resize(5); ev_sort(1, 0); ev_search(1, 0, 1); ev_search(-2, 0, 0); ev_reverse(1, 1); ev_search(0, 1, 1);
+    ev_shrink(); ev_rekey(3); ev_sort(2, 1); ev_reverse(0, 0); ev_sort(3, 1);
+    ev_resize(9); ev_sort(0, 1); ev_search(3, 0, 1); ev_search(9, 1, 0); ev_reverse(1, 0);
+    ev_resize(3); ev_shrink(); ev_reverse(0, 1); ev_rekey(1); ev_sort(4, 1); ev_sort(5, 0);
+    ev_reserve(11); ev_resize(7); ev_sort(1, 1); ev_reverse(1, 1); ev_shrink(); ev_sort(0, 1); ev_reverse(0, 1);
+}
+static void script_bigelem_300(void) { script_bigelem(300); }
+static void script_bigelem_4097(void) { script_bigelem(4097); }
+static void script_bigelem_6000(void) { script_bigelem(6000); }
+static void epilogue_bigelem(void)
+{
+    ev_resize(4); ev_shrink(); ev_sort(3, 1); ev_search(0, 0, 1); ev_reverse(1, 1); ev_resize(6); ev_sort(0, 1);
+    VRT_OP0("vector.clear", "(big elements)");
+    ev_d_lo = 0; ev_d_hi = ev_size;
+    cstl_vector_clear(&EV);
+    ev_d_hi = 0; ev_size = 0;
+    ev_audit("clear");
+    VRT_CHECK(cstl_vector_capacity(&EV) == 0, "faults.bigelem.clear.cap", "capacity not 0 after clear");
 }
 
 /* ======================= objects past 64 KiB / 128 KiB (growth policies with thresholds) ======================= */
@@ -535,8 +853,58 @@ static struct helem he[HN];
 static int hlive[HN];
 static struct cstl_hash HT;
 static int h_ready;
-static size_t hf0(size_t k, size_t m) { return k % m; }
-static size_t hf1(size_t k, size_t m) { return (5 * k + 1) % m; }
+/*
+ * What a failed call must not remember: every hash function the client names is a trampoline with its own consultation
+ * counter.  The model knows which function the table is configured with (h_fn_cur: the one named by the last resize that
+ * took effect, -1 = the library's default because NULL was passed to a fresh table) and which one it had before that
+ * (h_fn_old: may still be consulted while the incremental rehash runs).  Around every library call: no other function is
+ * consulted -- in particular not one that only a FAILED resize named --, and a keyed call consults the configured one.
+ */
+#define HF 4
+static unsigned long h_calls[HF], h_snap[HF];
+static int h_fn_cur, h_fn_old;      /* -1: the library's own default / none */
+static unsigned h_fn_failed;        /* bit f: function f was named by a resize that failed and by no effective one since */
+static size_t h_buckets;            /* bucket count of the last resize that took effect */
+static int h_quiet;                 /* audits look at the size only */
+static const char *h_entry = "none";    /* library call in progress */
+static int h_named = -1;            /* function argument of the resize in progress (a resize that takes effect may consult it) */
+static void hfn_called(int f, size_t m)
+{
+    char key[128];
+    h_calls[f]++;
+    if (f != h_fn_cur && f != h_fn_old && f != h_named) {
+        if (h_fn_failed & (1u << f)) {
+            snprintf(key, sizeof(key), "faults.hash.function-of-failed-resize-consulted.%s", h_entry);
+            vrt_fail(key, "%s consulted hf%d, which only a resize that failed has named (configured: hf%d, before: hf%d)", h_entry, f, h_fn_cur, h_fn_old);
+        }
+        snprintf(key, sizeof(key), "faults.hash.function-not-configured-consulted.%s", h_entry);
+        vrt_fail(key, "%s consulted hf%d although the table is configured with hf%d (before: hf%d)", h_entry, f, h_fn_cur, h_fn_old);
+    }
+    if (m == 0) {
+        snprintf(key, sizeof(key), "faults.hash.function-called-for-zero-buckets.%s", h_entry);
+        vrt_fail(key, "%s asked hf%d for a bucket of a table of 0 buckets", h_entry, f);
+    }
+}
+static size_t hf0(size_t k, size_t m) { hfn_called(0, m); return k % m; }
+static size_t hf1(size_t k, size_t m) { hfn_called(1, m); return (5 * k + 1) % m; }
+static size_t hf2(size_t k, size_t m) { hfn_called(2, m); return (3 * k + 2) % m; }
+static size_t hf3(size_t k, size_t m) { hfn_called(3, m); return (k / 2 + 3) % m; }
+static cstl_hash_func_t *const h_fns[HF] = { hf0, hf1, hf2, hf3 };
+static int hfn_index(cstl_hash_func_t *f) { int i; for (i = 0; i < HF; i++) if (h_fns[i] == f) return i; return -1; }
+static void hfn_begin(const char *entry, int named) { memcpy(h_snap, h_calls, sizeof(h_snap)); h_entry = entry; h_named = named; }
+/* keyed > 0: number of keyed calls made since hfn_begin, each of which has to consult the configured function */
+static void hfn_check(unsigned long keyed)
+{
+    char key[128];
+    if (h_fn_cur >= 0 && h_calls[h_fn_cur] - h_snap[h_fn_cur] < keyed) {
+        snprintf(key, sizeof(key), "faults.hash.configured-function-not-consulted.%s", h_entry);
+        vrt_fail(key, "%s: the function of the last resize that took effect (hf%d) was consulted %lu times by %lu keyed calls",
+                 h_entry, h_fn_cur, h_calls[h_fn_cur] - h_snap[h_fn_cur], keyed);
+    }
+    if (keyed && h_fn_failed) COUNT("hash.keyed-call.after-failed-resize-naming-another-function");
+    if (keyed && h_fn_cur < 0) COUNT("hash.keyed-call.default-function-after-failed-first-resize");
+    h_entry = "none"; h_named = -1;
+}
 static void hash_audit(const char *after)
 {
     int i, n = 0;
@@ -544,39 +912,65 @@ static void hash_audit(const char *after)
     snprintf(key, sizeof(key), "faults.hash.contents-changed.%s", after);
     for (i = 0; i < HN; i++) n += hlive[i];
     if (cstl_hash_size(&HT) != (size_t)n) vrt_fail(key, "size %zu, model %d", cstl_hash_size(&HT), n);
-    if (!h_ready) return;
+    if (!h_ready || h_quiet) return;     /* every find moves a pending rehash along: h_quiet keeps it pending for the next call */
+    hfn_begin("find", -1);
     for (i = 0; i < HN; i++) {
         void *r = cstl_hash_find(&HT, he[i].id, NULL, NULL);
         if ((r == &he[i]) != (hlive[i] != 0)) vrt_fail(key, "element %d %s", i, hlive[i] ? "lost" : "found although erased");
     }
+    hfn_check(HN);
 }
+static void hash_ins(int i);
 static void hash_resize(size_t n, cstl_hash_func_t *f)
 {
-    const float before = h_ready ? cstl_hash_load(&HT) : -1.0f;
+    float before;
     const size_t live_before = vrt_lib_live();
     float after;
-    int cnt = 0, i;
+    int cnt = 0, i, took = 0, pending;
+    const int named = hfn_index(f);
     for (i = 0; i < HN; i++) cnt += hlive[i];
+    /* the outcome of a resize is read off the load: an empty table (its first resize succeeded late) gets an element first */
+    if (h_ready && cnt == 0) { hash_ins(HN - 1); cnt = 1; }
+    before = h_ready ? cstl_hash_load(&HT) : -1.0f;
+    /* white-box read, only to classify the situation for the counters */
+    pending = h_ready && HT.bucket.rh.hash != NULL;
     CALL_BEGIN("hash.resize", "n %ld (ready %ld)", n, h_ready);
+    hfn_begin("resize", named);
     cstl_hash_resize(&HT, n, f);
+    hfn_check(0);
     if (!h_ready) {
-        if (vrt_lib_live() > live_before) { require_not_fired("hash.resize", "allocated"); h_ready = 1; }
-        else { require_fired("hash.resize", "nothing"); count_fail("hash.resize"); }
+        if (vrt_lib_live() > live_before) { require_not_fired("hash.resize", "allocated"); h_ready = 1; took = 1; h_fn_cur = h_fn_old = -1; h_buckets = 0; }
+        else {
+            require_fired("hash.resize", "nothing"); count_fail("hash.resize");
+            if (named >= 0) COUNT("hash.first-resize.failed-naming-a-function");
+        }
     } else {
         after = cstl_hash_load(&HT);
         if (after != (float)cnt / n) {
             /* request not taken: must be the quiet failure, nothing visible changed */
             VRT_CHECK(after == before, "faults.hash.resize.load", "load is neither size/n nor unchanged");
             require_fired("hash.resize", "no change"); count_fail("hash.resize");
-        }
+            if (pending) COUNT("hash.resize.failed-while-rehash-pending");
+            if (pending && named >= 0 && named != h_fn_cur && named != h_fn_old) COUNT("hash.resize.failed-while-rehash-pending.naming-another-function");
+        } else took = 1;
     }
+    if (took) {
+        /* same geometry and (NULL or the same function): documented no-op; otherwise the named function is the table's now */
+        if (n != h_buckets || (named >= 0 && named != h_fn_cur)) {
+            h_fn_old = h_fn_cur;
+            if (named >= 0) { h_fn_cur = named; h_fn_failed &= ~(1u << named); }
+            h_buckets = n;
+        }
+    } else if (named >= 0 && named != h_fn_cur && named != h_fn_old) h_fn_failed |= 1u << named;
     hash_audit("resize");
 }
 static void hash_shrink(void)
 {
     const size_t cap = HT.bucket.capacity;      /* white-box read, only to classify the outcome for the counters */
     CALL_BEGIN("hash.shrink_to_fit", "", 0, 0);
+    hfn_begin("shrink_to_fit", -1);
     cstl_hash_shrink_to_fit(&HT);
+    hfn_check(0);
     if (FIRED()) { VRT_CHECK(HT.bucket.capacity == cap || HT.bucket.at != NULL, "faults.hash.shrink", "bucket array lost"); count_fail("hash.shrink_to_fit"); }
     hash_audit("shrink_to_fit");
 }
@@ -584,24 +978,52 @@ static void hash_ins(int i)
 {
     if (!h_ready || hlive[i]) return;
     CALL_BEGIN("hash.insert", "e%ld", i, 0);
+    hfn_begin("insert", -1);
     cstl_hash_insert(&HT, he[i].id, &he[i]); hlive[i] = 1;
+    hfn_check(1);
     hash_audit("insert");
 }
 static void hash_del(int i)
 {
     if (!h_ready || !hlive[i]) return;
     CALL_BEGIN("hash.erase", "e%ld", i, 0);
+    hfn_begin("erase", -1);
     cstl_hash_erase(&HT, &he[i]); hlive[i] = 0;
+    hfn_check(1);
     hash_audit("erase");
+}
+static int hclear_n;
+static void hclear_cb(void *e, void *p) { struct helem *x = e; (void)p; VRT_CHECK(hlive[x - he], "faults.hash.clear.non-member", "clear for a non-member"); hlive[x - he] = 0; hclear_n++; }
+/* the FIRST resize of a fresh or cleared table names a function and may fail; the retry passes NULL (documented: the default
+ * function -- the one named by the failed call must never be consulted then), the retry after that names another one */
+static void hash_first_resize(size_t n, cstl_hash_func_t *f, cstl_hash_func_t *alt)
+{
+    hash_resize(n, f);
+    if (!h_ready) { hash_resize(n, NULL); if (h_ready) COUNT("hash.first-resize.retry-with-NULL-after-failure"); }
+    if (!h_ready) { hash_resize(n, alt); if (h_ready) COUNT("hash.first-resize.retry-with-another-function-after-failure"); }
+    if (!h_ready) hash_resize(n, NULL);
+}
+static void hash_clear_now(int which)
+{
+    int i, n = 0;
+    for (i = 0; i < HN; i++) n += hlive[i];
+    hclear_n = 0;
+    VRT_OP1("hash.clear", "(clear #%ld of the script)", which);
+    hfn_begin("clear", -1);
+    cstl_hash_clear(&HT, hclear_cb);
+    hfn_check(0);
+    VRT_CHECK(hclear_n == n, "faults.hash.clear.count", "clear handed over %d of %d", hclear_n, n);
+    h_ready = 0; h_fn_cur = h_fn_old = -1; h_buckets = 0;
+    hash_audit("clear");
 }
 static void script_hash(void)
 {
     int i;
-    memset(hlive, 0, sizeof(hlive)); h_ready = 0;
+    memset(hlive, 0, sizeof(hlive)); h_ready = 0; h_quiet = 0;
+    h_fn_cur = h_fn_old = -1; h_fn_failed = 0; h_buckets = 0;
     for (i = 0; i < HN; i++) he[i].id = 3 * i + 1;
     cstl_hash_init(&HT, offsetof(struct helem, n));
-    hash_resize(4, hf0);
-    if (!h_ready) hash_resize(4, hf0);
+    hash_first_resize(4, hf0, hf2);
     for (i = 0; i < 6; i++) hash_ins(i);
     hash_resize(8, NULL); hash_ins(6);
     hash_resize(16, hf1); hash_ins(7); hash_del(2);
@@ -613,24 +1035,23 @@ static void script_hash(void)
     hash_shrink();
     hash_resize(9, hf0); hash_ins(13); hash_shrink();
     hash_resize(20, NULL); hash_ins(14); hash_resize(6, hf1); hash_shrink();
-    hash_resize(40, hf0); hash_del(5); hash_resize(41, hf1); hash_shrink(); hash_resize(2, NULL); hash_shrink();
+    /* a resize that fails while the rehash of the previous one is still pending, naming a third function */
+    h_quiet = 1; hash_resize(40, hf0); hash_del(5); hash_resize(41, hf2); h_quiet = 0; hash_audit("resize");
+    hash_shrink(); hash_resize(2, NULL); hash_shrink();
+    /* the table lives a second time: clear, then a FIRST resize again, naming a function the table never had */
+    hash_clear_now(0);
+    hash_first_resize(5, hf3, hf1);
+    hash_ins(0); hash_ins(3); hash_ins(9); hash_resize(12, hf2); hash_ins(4); hash_del(3); hash_resize(30, NULL); hash_ins(11); hash_resize(31, hf3); hash_ins(15);
 }
-static int hclear_n;
-static void hclear_cb(void *e, void *p) { struct helem *x = e; (void)p; VRT_CHECK(hlive[x - he], "faults.hash.clear.non-member", "clear for a non-member"); hlive[x - he] = 0; hclear_n++; }
 static void epilogue_hash(void)
 {
-    int i, n = 0;
+    int i;
     if (!h_ready) hash_resize(4, hf0);
     for (i = 9; i < 13; i++) hash_ins(i);
     hash_resize(7, hf0); hash_del(10); hash_shrink();
-    for (i = 0; i < HN; i++) n += hlive[i];
-    hclear_n = 0;
-    VRT_OP0("hash.clear", "");
-    cstl_hash_clear(&HT, hclear_cb);
-    VRT_CHECK(hclear_n == n, "faults.hash.clear.count", "clear handed over %d of %d", hclear_n, n);
-    h_ready = 0;
+    hash_clear_now(1);
     hash_resize(3, hf1); hash_ins(1); hash_ins(2);
-    cstl_hash_clear(&HT, hclear_cb); h_ready = 0;
+    hash_clear_now(2);
 }
 
 /* ======================= smart pointers ======================= */
@@ -1001,7 +1422,7 @@ static void epilogue_arrays(void)
 }
 
 /* ======================= driver ======================= */
-struct script { const char *name; void (*body)(void); void (*epilogue)(void); };
+struct script { const char *name; void (*body)(void); void (*epilogue)(void); int rand_div; };
 static const struct script scripts[] = {
     { "map", script_map, epilogue_map },
     { "vector", script_vector, epilogue_vector },
@@ -1013,6 +1434,10 @@ static const struct script scripts[] = {
     { "arrays", script_arrays, epilogue_arrays },
     { "bigvector", script_bigvector, epilogue_bigvector },
     { "bigstring", script_bigstring, epilogue_bigstring },
+    /* N < 10: every single/suffix/pair/triple is enumerated, a sixth of the random masks covers the 2^N patterns many times */
+    { "vector-e300", script_bigelem_300, epilogue_bigelem, 6 },
+    { "vector-e4097", script_bigelem_4097, epilogue_bigelem, 6 },
+    { "vector-e6000", script_bigelem_6000, epilogue_bigelem, 6 },
 };
 #define NSCRIPT ((int)(sizeof(scripts) / sizeof(scripts[0])))
 static uint64_t Nalloc[NSCRIPT];
@@ -1021,10 +1446,10 @@ static uint64_t nsingle[NSCRIPT], nsuffix[NSCRIPT], npair[NSCRIPT], ntriple[NSCR
 
 static void run_script(int s, const uint8_t *mask, size_t nbits, int tail)
 {
-    vrt_fp_arm(mask, nbits, tail);
+    fp_arm_script(mask, nbits, tail);
     faults_on = 1;
     scripts[s].body();
-    vrt_fp_disarm();
+    fp_disarm_script();
     faults_on = 0;
     /* the faults have stopped: continued use, then release everything */
     vrt_state("after-faults");
@@ -1055,10 +1480,10 @@ static void measure(void)
         pid_t pid = -1;
         if (pipe(fd) == 0 && (pid = fork()) == 0) {
             close(fd[0]);
-            vrt_fp_arm(none, 0, 0);
+            fp_arm_script(none, 0, 0);
             scripts[s].body();
-            n = vrt_fp_ordinal();
-            vrt_fp_disarm();
+            n = fp_total();
+            fp_disarm_script();
             if (write(fd[1], &n, sizeof(n)) != (ssize_t)sizeof(n)) _exit(3);
             scripts[s].epilogue();
             _exit(0);
@@ -1069,17 +1494,17 @@ static void measure(void)
             close(fd[0]);
             waitpid(pid, &st, 0);
         } else {
-            vrt_fp_arm(none, 0, 0);
+            fp_arm_script(none, 0, 0);
             scripts[s].body();
-            n = vrt_fp_ordinal();
-            vrt_fp_disarm();
+            n = fp_total();
+            fp_disarm_script();
             scripts[s].epilogue();
         }
         Nalloc[s] = n;
         nsingle[s] = Nalloc[s]; nsuffix[s] = Nalloc[s];
         npair[s] = Nalloc[s] * (Nalloc[s] - 1) / 2;
         ntriple[s] = Nalloc[s] <= 24 ? Nalloc[s] * (Nalloc[s] - 1) * (Nalloc[s] - 2) / 6 : 0;
-        nrand[s] = r;
+        nrand[s] = scripts[s].rand_div > 1 ? r / (uint64_t)scripts[s].rand_div : r;
         base[s + 1] = base[s] + 1 + nsingle[s] + nsuffix[s] + npair[s] + ntriple[s] + nrand[s];
     }
     measuring = 0;
@@ -1166,7 +1591,16 @@ static const char *const required[] = {
     "pointers.shared.alloc.with-callback", "pointers.shared.alloc.without-callback", "pointers.failed-alloc.with-callback",
     "pointers.unique.failed-alloc-onto-occupied", "pointers.shared.failed-alloc-onto-last-owner", "pointers.shared.failed-alloc-onto-co-owned",
     "pointers.failed-alloc.previous-cleared-once", "pointers.unique.release",
-    "vector.ctor.slot-checked", "vector.dtor.slot-checked", "map.erase.handed-back", NULL
+    "vector.ctor.slot-checked", "vector.dtor.slot-checked", "map.erase.handed-back",
+    /* what a failed call must not remember */
+    "map.cmp.checked-after-failed-insert", "vector.ctor.checked-after-failed-call",
+    "hash.first-resize.failed-naming-a-function", "hash.first-resize.retry-with-NULL-after-failure",
+    "hash.first-resize.retry-with-another-function-after-failure", "hash.keyed-call.default-function-after-failed-first-resize",
+    "hash.keyed-call.after-failed-resize-naming-another-function", "hash.resize.failed-while-rehash-pending.naming-another-function",
+    /* big elements: scratch space, calls without a failure mode with no memory at all */
+    "bigelem.nomem.calls", "bigelem.sort.checked", "bigelem.sort.own-swap-used", "bigelem.reverse.checked", "bigelem.search.checked",
+    "bigelem.swap.scratch-checked", "bigelem.nofail-call.capacity-equals-size", "bigelem.ctor.checked-after-failed-call",
+    "bigelem.audit.after-failed-call", NULL
 };
 static const struct vrt_harness H = { "faults", ncases, run_case, winit, NULL, required, 16 };
 int main(int argc, char **argv) { return vrt_main(argc, argv, &H); }
